@@ -62,6 +62,7 @@ type FileInfo struct {
 	CreatAt int // op index of the creat
 	HdrAt   int // op index of the header write
 	DoneAt  int // op index of the completing ftruncate (-1 while incomplete)
+	DelAt   int // op index + 1 of its unlink (RemoveTimeBucket); 0 = never
 	Vrl     int
 }
 
@@ -263,12 +264,24 @@ func Decode(ops []Op, root string, vrlOf func(bucket string) int, init *Decoded)
 			f, known := d.FID[o.Path]
 			switch o.Kind {
 			case "creat":
-				f = len(d.Files)
-				d.FID[o.Path] = f
 				y := 0
 				fmt.Sscanf(bin[2], "%d", &y)
-				d.Files = append(d.Files, FileInfo{Path: o.Path, Bucket: bin[1], Year: y, CreatAt: i, HdrAt: -1, DoneAt: -1, Vrl: vrlOf(bin[1])})
+				nf := FileInfo{Path: o.Path, Bucket: bin[1], Year: y, CreatAt: i, HdrAt: -1, DoneAt: -1, Vrl: vrlOf(bin[1])}
+				if known && d.Files[f].DelAt > 0 {
+					d.Files[f] = nf // re-created after a removal: WAL records name files by path, so the id is the path's
+				} else {
+					f = len(d.Files)
+					d.FID[o.Path] = f
+					d.Files = append(d.Files, nf)
+				}
 				ev = Ev{K: "filenew", F: f}
+			case "unlink":
+				if !known {
+					ev = bad(i, "unlink of unknown file %s", o.Path)
+					break
+				}
+				d.Files[f].DelAt = i + 1
+				ev = Ev{K: "filedel", F: f}
 			case "write":
 				if !known {
 					ev = bad(i, "write to unknown file %s", o.Path)
@@ -328,6 +341,8 @@ func Decode(ops []Op, root string, vrlOf func(bucket string) int, init *Decoded)
 			}
 		case o.Kind == "mkdir" || base == "category_name":
 			ev = Ev{K: "cat"}
+		case o.Kind == "unlink" && !strings.Contains(base, "."):
+			ev = Ev{K: "cat"} // rmdir of a catalog directory (RemoveTimeBucket)
 		default:
 			if strings.HasSuffix(o.Path, ".walfile.tmp") {
 				ev = bad(i, "%s on moved-aside WAL %s", o.Kind, o.Path)
@@ -396,6 +411,8 @@ func (e Ev) Term() string {
 		return "ECat"
 	case "filenew":
 		return fmt.Sprintf("(EFileNew %s)", f)
+	case "filedel":
+		return fmt.Sprintf("(EFileDel %s)", f)
 	case "filehdr":
 		return fmt.Sprintf("(EFileHdr %s %s)", f, kindTerm(e.Var))
 	case "create":
